@@ -56,7 +56,8 @@ class PythonMagicNumberAnalyzer(ast.NodeVisitor):
         Args:
             node: The Constant node to check
         """
-        if isinstance(node.value, (int, float)):
+        # bool is a subclass of int, but True/False are not numeric literals
+        if isinstance(node.value, (int, float)) and not isinstance(node.value, bool):
             parent = self.parent_map.get(node)
             line_number = node.lineno if hasattr(node, "lineno") else 0
             self.numeric_literals.append((node, parent, node.value, line_number))
